@@ -46,7 +46,7 @@ theorem C04_coll_no_growth_while_nonempty (cfg : Cfg) (c : Coll) (size : Nat) (e
     (c.allocateNode cfg size env).ev = [] ∧ (c.allocateNode cfg size env).st.arena = c.arena ∧
       (c.allocateNode cfg size env).st.cur = c.cur := by
   unfold Coll.allocateNode
-  simp only [hs, ↓reduceIte, hl, hd, h, Bool.false_eq_true]
+  simp only [hs, ↓reduceIte, hl, hd, h, Bool.false_eq_true, Coll.takeNode]
   split <;> exact ⟨rfl, rfl, rfl⟩
 
 /-- `m` successive `allocate_node` calls -/
